@@ -138,6 +138,68 @@ Lemma settings_c0_fields c fr :
   sc_highestID (settings_c0 enc_set_max c fr) = sc_highestID c /\ sc_out (settings_c0 enc_set_max c fr) = sc_out c.
 Proof. unfold settings_c0. destruct (sf_set_hastable fr); repeat split. Qed.
 
+(* the two window changes the stream loop applies to the whole connection *)
+Lemma settings_Sim c fr L : Sim c L ->
+  let newInit := signed 32 (sf_set_win fr) in
+  let delta := (newInit - sc_initWin c)%Z in
+  Sim (emit (upd_strms (upd_initWin (settings_c0 enc_set_max c fr) newInit) (map (bump delta) (sc_strms c))) OSettingsAck)
+      (lstep L (LInit newInit)).
+Proof.
+  intros S newInit delta.
+  destruct (settings_c0_fields c fr) as (E1 & E2 & E3 & E4 & E5 & E6).
+  destruct S as [i_init i_conn i_strm i_nodup i_le i_hi i_fresh].
+  constructor; rewrite ?sc_initWin_emit, ?sc_clientWindow_emit, ?sc_strms_emit, ?sc_lastID_emit, ?sc_highestID_emit; sc_cbn.
+  - reflexivity.
+  - rewrite E3. assumption.
+  - intros s Hs _. apply in_map_iff in Hs. destruct Hs as (s0 & <- & Hs0).
+    destruct (i_strm s0 Hs0) as (w & Hw & Hle); [discriminate|].
+    exists (w + (newInit - l_init L))%Z. cbn [l_strm lstep bump st_id set_window st_window]. rewrite Hw.
+    split; [reflexivity|]. subst delta. rewrite i_init. flia.
+  - rewrite map_map. cbn [bump st_id set_window]. assumption.
+  - intros s Hs. apply in_map_iff in Hs. destruct Hs as (s0 & <- & Hs0). rewrite E4. apply (i_le s0 Hs0).
+  - rewrite E4, E5. assumption.
+  - rewrite E5. intros sid w H0. cbn [l_strm l_init lstep]. destruct (l_strm L sid) as [w0|] eqn:Ew; [|discriminate].
+    intro X; inversion X; subst. specialize (i_fresh _ _ H0 Ew). flia.
+Qed.
+
+Lemma winupd_Sim c inc L : Sim c L ->
+  Sim (upd_clientWindow c (sc_clientWindow c + Z.of_N inc)) (lstep L (LGrant 0 (Z.of_N inc))).
+Proof.
+  intro S. pose proof (SimX_grant None c L (LGrant 0 (Z.of_N inc))) as G.
+  destruct G as [j_init j_conn j_strm j_nodup j_le j_hi j_fresh]; [cbn; flia | exact S|].
+  constructor; sc_cbn; try assumption.
+  destruct S as [i_init i_conn i_strm i_nodup i_le i_hi i_fresh]. cbn [lstep N.eqb l_conn]. flia.
+Qed.
+
+(* from the frame's stream to what afterFrame is given *)
+Lemma after_pre_Sim c fr c1 s c2 cX sX L : Sim c L -> sf_sid fr <> 0 -> Origin c fr c1 s -> Closes c1 c2 ->
+  HFok dec_field cfg c2 s fr cX sX ->
+  Sim cX (lrun L (lgrants_of fr)) /\ held (lrun L (lgrants_of fr)) sX /\ st_id sX <= sc_lastID cX /\
+  st_id sX = st_id s /\ out_ext nodata_out c cX.
+Proof.
+  intros S NZ Or CL HF.
+  destruct (Origin_Sim c fr c1 s L NZ S Or) as (S1 & H1 & Le1 & Id1 & WU).
+  set (L1 := lrun L (lgrants_of fr)) in *.
+  pose proof (Sim_Closes _ _ _ _ CL S1) as S2.
+  assert (Le2 : st_id s <= sc_lastID c2) by (rewrite (cl_lastID _ _ _ CL); exact Le1).
+  destruct (HFok_eff _ dec_field cfg c2 s fr cX sX HF) as (c3 & s3 & R & Q & _ & SS & WW & SW & _).
+  pose proof (SimX_Recv None _ _ _ R S2) as S3.
+  assert (I3 : st_id s3 = st_id s) by apply SS.
+  assert (H3 : held L1 s3).
+  { destruct WW as [WW|[KW WW]].
+    - eapply held_same_win; eassumption.
+    - destruct (WU KW) as (w & Hw & Hle). exists w. rewrite I3, WW. auto. }
+  assert (IX : st_id sX = st_id s3) by apply SW.
+  split; [eapply SimX_Quiet; eassumption|].
+  split; [eapply held_same_win; [exact IX | apply SW | exact H3]|].
+  split; [rewrite IX, I3, (q_lastID _ _ _ Q), (rv_lastID _ _ _ R); exact Le2|].
+  split; [congruence|].
+  eapply out_ext_trans; [eapply out_ext_weaken; [apply quiet_nodata | apply (Origin_Frame _ _ _ _ _ Or)]|].
+  eapply out_ext_trans; [eapply out_ext_weaken; [apply quiet_nodata | apply CL]|].
+  eapply out_ext_trans; [eapply out_ext_weaken; [apply winupd_nodata | apply R]|].
+  eapply out_ext_weaken; [apply quiet_nodata | apply Q].
+Qed.
+
 Lemma sl_frame_led c fr L : Sim c L ->
   GoodStep c (lrun L (lgrants_of fr)) (fst (sl_frame dec_field enc_set_max cfg c fr)).
 Proof.
@@ -153,37 +215,16 @@ Proof.
     assert (E : lgrants_of fr = [LInit newInit]).
     { unfold lgrants_of. rewrite Z, K, HW. reflexivity. }
     rewrite E. cbn [lrun fold_left].
-    destruct (settings_c0_fields c fr) as (E1 & E2 & E3 & E4 & E5 & E6). fold c0 in E1, E2, E3, E4, E5, E6.
-    set (c2 := emit (upd_strms (upd_initWin c0 newInit) (map (bump delta) (sc_strms c))) OSettingsAck).
-    assert (S2 : Sim c2 (lstep L (LInit newInit))).
-    { destruct S as [i_init i_conn i_strm i_nodup i_le i_hi i_fresh]. subst c2.
-      constructor; rewrite ?sc_initWin_emit, ?sc_clientWindow_emit, ?sc_strms_emit, ?sc_lastID_emit, ?sc_highestID_emit; sc_cbn.
-      - reflexivity.
-      - rewrite E3. assumption.
-      - intros s Hs _. apply in_map_iff in Hs. destruct Hs as (s0 & <- & Hs0).
-        destruct (i_strm s0 Hs0) as (w & Hw & Hle); [discriminate|].
-        exists (w + (newInit - l_init L))%Z. cbn [l_strm lstep bump st_id set_window st_window]. rewrite Hw.
-        split; [reflexivity|]. subst delta. rewrite i_init. flia.
-      - rewrite map_map. cbn [bump st_id set_window]. assumption.
-      - intros s Hs. apply in_map_iff in Hs. destruct Hs as (s0 & <- & Hs0). rewrite E4. apply (i_le s0 Hs0).
-      - rewrite E4, E5. assumption.
-      - rewrite E5. intros sid w H0. cbn [l_strm l_init lstep]. destruct (l_strm L sid) as [w0|] eqn:Ew; [|discriminate].
-        intro X; inversion X; subst. specialize (i_fresh _ _ H0 Ew). flia. }
-    destruct (flush_streams_led _ c2 _ S2) as (L' & Led & S').
+    pose proof (settings_Sim c fr L S) as S2. cbv zeta in S2. fold c0 newInit delta in S2.
+    destruct (flush_streams_led _ _ _ S2) as (L' & Led & S').
     exists L'. split; [|right; exact S'].
-    eapply LedOn_trans; [|exact Led]. apply LedOn_quiet. subst c2.
-    eapply out_ext_trans; [|apply out_ext_emit; exact I]. apply out_ext_same. sc_cbn. exact E6.
+    eapply LedOn_trans; [|exact Led]. apply LedOn_quiet.
+    eapply out_ext_trans; [|apply out_ext_emit; exact I]. apply out_ext_same. sc_cbn. apply (settings_c0_fields c fr).
   - (* WINDOW_UPDATE on the connection *)
     assert (E : lgrants_of fr = [LGrant 0 (Z.of_N (sf_inc fr))]).
     { unfold lgrants_of. rewrite Z, K. reflexivity. }
     rewrite E. cbn [lrun fold_left].
-    set (c1 := upd_clientWindow c (sc_clientWindow c + Z.of_N (sf_inc fr))).
-    assert (S1 : Sim c1 (lstep L (LGrant 0 (Z.of_N (sf_inc fr))))).
-    { pose proof (SimX_grant None c L (LGrant 0 (Z.of_N (sf_inc fr)))) as G.
-      destruct G as [j_init j_conn j_strm j_nodup j_le j_hi j_fresh]; [cbn; flia | exact S|].
-      constructor; subst c1; sc_cbn; try assumption.
-      destruct S as [i_init i_conn i_strm i_nodup i_le i_hi i_fresh]. cbn [lstep N.eqb l_conn]. flia. }
-    destruct (flush_streams_led _ c1 _ S1) as (L' & Led & S').
+    destruct (flush_streams_led _ _ _ (winupd_Sim c (sf_inc fr) L S)) as (L' & Led & S').
     exists L'. split; [|right; exact S'].
     eapply LedOn_trans; [|exact Led]. apply LedOn_quiet. apply out_ext_same. reflexivity.
   - (* DATA on a stream the server reset: credited to the connection *)
@@ -203,41 +244,11 @@ Proof.
       * eapply held_same_win; [| |apply (sim_strm _ _ _ _ S1 p Hp); discriminate]; reflexivity.
       * rewrite sc_lastID_write_goaway. apply (sim_le _ _ _ _ S1 p Hp).
   - (* the frame is handled on its stream *)
-    destruct (Origin_Sim c fr c1 s L NZ S Or) as (S1 & H1 & Le1 & Id1 & WU).
-    set (L1 := lrun L (lgrants_of fr)) in *.
-    pose proof (Sim_Closes _ _ _ _ CL S1) as S2.
-    assert (Le2 : st_id s <= sc_lastID c2) by (rewrite (cl_lastID _ _ _ CL); exact Le1).
-    unfold HFok in HF.
-    pose proof (handle_frame_Recv _ dec_field cfg c2 s fr) as R.
-    pose proof (handle_frame_eff _ dec_field cfg c2 s fr) as (SS & WW & _).
-    destruct (handle_frame dec_field cfg c2 s fr) as [[c3 s3] e]. cbn [fst snd] in R, SS, WW.
-    pose proof (SimX_Recv None _ _ _ R S2) as S3.
-    assert (I3 : st_id s3 = st_id s) by apply SS.
-    assert (H3 : held L1 s3).
-    { destruct WW as [WW|[KW WW]].
-      - eapply held_same_win; eassumption.
-      - destruct (WU KW) as (w & Hw & Hle). exists w. rewrite I3, WW. auto. }
-    assert (O3 : out_ext nodata_out c c3).
-    { eapply out_ext_trans; [eapply out_ext_weaken; [apply quiet_nodata | apply (Origin_Frame _ _ _ _ _ Or)]|].
-      eapply out_ext_trans; [eapply out_ext_weaken; [apply quiet_nodata | apply CL]|].
-      eapply out_ext_weaken; [apply winupd_nodata | apply R]. }
-    assert (Le3 : st_id s3 <= sc_lastID c3) by (rewrite I3, (rv_lastID _ _ _ R); exact Le2).
-    destruct e as [[code|code|]|].
-    + destruct HF as (_ & -> & ->).
-      eapply GoodStep_pre; [eapply out_ext_trans; [exact O3 | eapply out_ext_weaken; [apply quiet_nodata | apply (q_out _ _ _ (Quiet_write_goaway _ c3 (st_id s3) code))]]|].
-      eapply after_frame_led with (ex := None); [eapply SimX_Quiet; [apply Quiet_write_goaway | exact S3] | left; reflexivity | |].
-      * eapply held_same_win; [| |exact H3]; reflexivity.
-      * rewrite sc_lastID_write_goaway. exact Le3.
-    + destruct HF as (-> & ->).
-      eapply GoodStep_pre; [eapply out_ext_trans; [exact O3 | eapply out_ext_weaken; [apply quiet_nodata | apply (q_out _ _ _ (Quiet_write_reset _ c3 (st_id s3) code))]]|].
-      eapply after_frame_led with (ex := None); [eapply SimX_Quiet; [apply Quiet_write_reset | exact S3] | left; reflexivity | |].
-      * eapply held_same_win; [| |exact H3]; reflexivity.
-      * rewrite sc_lastID_write_reset. exact Le3.
-    + contradiction.
-    + destruct HF as (-> & ->).
-      eapply GoodStep_pre; [exact O3|].
-      eapply after_frame_led with (ex := None); [exact S3 | left; reflexivity | exact H3 | exact Le3].
+    destruct (after_pre_Sim c fr c1 s c2 cX sX L S NZ Or CL HF) as (SX & HX & LeX & _ & OX).
+    eapply GoodStep_pre; [exact OX|].
+    eapply after_frame_led with (ex := None); [exact SX | left; reflexivity | exact HX | exact LeX].
 Qed.
+
 Lemma Quiet_release_stream c s : Quiet c (release_stream c s).
 Proof.
   unfold release_stream.
